@@ -1,5 +1,7 @@
 import IrVerif.Drive.Util
 import IrVerif.Model.SymExpr
+import IrVerif.Model.SymDim
+import IrVerif.Model.SymLexU
 /-! Protocol handler for the C16 model (`sym.*`).
 
 Expression trees travel as JSON arrays: `["n", 5]`, `["s", "N"]`, `["inf", true]`,
@@ -132,6 +134,159 @@ def optJ {α} (f : α → Json) : Option α → Json
   | none => Json.null
   | some a => f a
 
+/-! ### operator overloads, evaluate, Shape (Model/SymDim.lean)
+
+Programs travel as JSON arrays: `["int", 3]`, `["dim", "N + 1"]` (= `SymbolicDim(text)`),
+`["unknown"]` (= `SymbolicDim(None)`), `["other"]` (a float / None / ...), `["b", "add", x, y]`
+(add sub mul truediv floordiv mod pow), `["u", "neg", x]` (neg floor ceil trunc),
+`["lat", "max", x, y]`. -/
+
+def bOpOf : String → Except String BOp
+  | "add" => pure .add | "sub" => pure .sub | "mul" => pure .mul | "truediv" => pure .truediv
+  | "floordiv" => pure .floordiv | "mod" => pure .mod | "pow" => pure .pow
+  | s => throw s!"unknown operator {s}"
+
+def uOpOf : String → Except String UOp
+  | "neg" => pure .neg | "floor" => pure .floor | "ceil" => pure .ceil | "trunc" => pure .trunc
+  | s => throw s!"unknown unary operator {s}"
+
+partial def progOfJson (j : Json) : Except String Prog := do
+  let a ← j.getArr?
+  let tag ← (a[0]?.getD Json.null).getStr?
+  match tag, a.size with
+  | "int", 2 => return .int (← a[1]!.getInt?)
+  | "dim", 2 =>
+    let s ← a[1]!.getStr?
+    if !s.toList.all isAscii then throw "nonascii"
+    return .text s.toList
+  | "unknown", 1 => return .unknown
+  | "other", 1 => return .other
+  | "b", 4 => return .bin (← bOpOf (← a[1]!.getStr?)) (← progOfJson a[2]!) (← progOfJson a[3]!)
+  | "u", 3 => return .un (← uOpOf (← a[1]!.getStr?)) (← progOfJson a[2]!)
+  | "lat", 4 => return .lat ((← a[1]!.getStr?) == "max") (← progOfJson a[2]!) (← progOfJson a[3]!)
+  | t, _ => throw s!"bad program node {t}"
+
+def dimJ (envs : List Env) : Dim → List (String × Json)
+  | .unknown => [("status", Json.str "unknown")]
+  | .bad => [("status", Json.str "bad")]
+  | .expr e => [("status", Json.str "ok"), ("tree", exprToJson e),
+      ("vals", Json.arr (envs.map (fun env => ratJ (eval env e))).toArray),
+      ("free", strsJ (free e).eraseDups)]
+
+def progResJ (envs : List Env) : ProgRes → Json
+  | .typeError => obj [("status", Json.str "typeerror")]
+  | .valueError => obj [("status", Json.str "valueerror")]
+  | .val (.int n) => obj [("status", Json.str "int"), ("z", toJson n)]
+  | .val .other => obj [("status", Json.str "other")]
+  | .val (.dim d) => obj (dimJ envs d)
+
+def sdimOfJson (j : Json) : Except String SDim := do
+  match j.getInt? with
+  | .ok n => return .int n
+  | .error _ =>
+    match (← progOfJson j).run with
+    | .val (.dim d) => return .dim d
+    | .val (.int n) => return .int n
+    | _ => throw "shape dimension does not evaluate to a dimension"
+
+def sdimJ : SDim → Json
+  | .int n => obj [("kind", Json.str "int"), ("z", toJson n)]
+  | .dim .unknown => obj [("kind", Json.str "unknown")]
+  | .dim .bad => obj [("kind", Json.str "bad")]
+  | .dim (.expr e) => obj [("kind", Json.str "dim"), ("tree", exprToJson e),
+      ("free", strsJ (free e).eraseDups)]
+
+def eqOperandOfJson (j : Json) : Except String EqOperand := do
+  let a ← j.getArr?
+  let tag ← (a[0]?.getD Json.null).getStr?
+  match tag, a.size with
+  | "dim", 2 => match a[1]! with
+    | Json.null => return .dim none
+    | v => return .dim (some (← v.getStr?))
+  | "str", 2 => return .str (← a[1]!.getStr?)
+  | "none", 1 => return .none
+  | "other", 1 => return .other
+  | t, _ => throw s!"bad equality operand {t}"
+
+def handleDim : Handler := fun m j =>
+  match m with
+  | "sym.ov" => some do
+      -- a program over the real operator overloads: outcome, the tree the model builds, its values
+      let envs ← getEnvs j "envs"
+      match progOfJson (← j.getObjVal? "p") with
+      | .error "nonascii" => return obj [("status", Json.str "nonascii")]
+      | .error e => throw e
+      | .ok p => return progResJ envs p.run
+  | "sym.dimeval" => some do
+      -- SymbolicDim.evaluate(b) on the dimension a program builds
+      let envs ← getEnvs j "envs"
+      let b ← getEnv j "b"
+      match progOfJson (← j.getObjVal? "p") with
+      | .error "nonascii" => return obj [("status", Json.str "nonascii")]
+      | .error e => throw e
+      | .ok p =>
+        match p.run with
+        | .val (.dim d) =>
+          match d.evaluate b with
+          | .int z => return obj [("status", Json.str "int"), ("z", toJson z)]
+          | .raised => return obj [("status", Json.str "valueerror")]
+          | .dim d' => return obj (dimJ envs d')
+        | r => return obj [("status", Json.str "noprog"), ("run", progResJ envs r)]
+  | "sym.shape" => some do
+      -- Shape(dims): evaluate(b), free_symbols, is_static / is_dynamic before and after
+      let b ← getEnv j "b"
+      let dims ← (← getArr j "dims").mapM sdimOfJson
+      let stat (sh : Shape) : List (String × Json) :=
+        [("static", Json.bool (Shape.isStatic sh)), ("dynamic", Json.bool (Shape.isDynamic sh)),
+         ("static_at", Json.arr ((List.range sh.length).map
+            (fun i => optJ Json.bool (Shape.isStaticAt sh i))).toArray),
+         ("dynamic_at", Json.arr ((List.range sh.length).map
+            (fun i => optJ Json.bool (Shape.isDynamicAt sh i))).toArray),
+         ("out_of_range", optJ Json.bool (Shape.isStaticAt sh sh.length)),
+         ("free", optJ strsJ (Shape.freeSymbols sh))]
+      let ev := Shape.evaluate b dims
+      return obj [("before", obj (stat dims)),
+                  ("evaluated", optJ (fun sh => Json.arr (sh.map sdimJ).toArray) ev),
+                  ("after", optJ (fun sh => obj (stat sh)) ev)]
+  | "sym.lexu" => some do
+      -- the tokenizer / parse_symbolic_expression over a classification of the non-ASCII characters
+      -- supplied by the caller (CPython's str predicates), ASCII characters classified by the model
+      let str ← getStr j "s"
+      let envs ← getEnvs j "envs"
+      let ident ← getBool j "ident"
+      let mut table : List (Char × CClass) := []
+      for row in (← getArr j "cls") do
+        let a ← row.getArr?
+        let ch ← (a[0]?.getD Json.null).getStr?
+        let kind ← (a[1]?.getD Json.null).getStr?
+        let c := ch.toList.headD ' '
+        let k : CClass ← match kind with
+          | "space" => pure CClass.space
+          | "alpha" => pure CClass.alpha
+          | "numeric" => pure CClass.numeric
+          | "other" => pure CClass.other
+          | "digit" => match a[2]?.getD Json.null with
+            | Json.null => pure (CClass.digit none)
+            | v => do pure (CClass.digit (some (← v.getNat?)))
+          | k => throw s!"bad class {k}"
+        table := (c, k) :: table
+      let cls : Char → CClass := fun c =>
+        if isAscii c then asciiClass c else (table.lookup c).getD CClass.other
+      let cs := str.toList
+      let toks := tokenizeK cls cs
+      let parsed := parseCharsK cls ident cs
+      return obj [("tokens", optJ (fun ts => Json.arr (ts.map tokJ).toArray) toks),
+                  ("r", Json.str (if parsed.isSome then "ok" else "raised")),
+                  ("tree", optJ exprToJson parsed),
+                  ("vals", optJ (fun e => Json.arr (envs.map (fun env => ratJ (eval env e))).toArray) parsed)]
+  | "sym.dimeq" => some do
+      let v : Option String ← match (← j.getObjVal? "v") with
+        | Json.null => pure none
+        | x => do pure (some (← x.getStr?))
+      let o ← eqOperandOfJson (← j.getObjVal? "o")
+      return obj [("eq", Json.bool (dimEq v o)), ("hashkey", optJ Json.str (dimHashKey v))]
+  | _ => none
+
 def handle : Handler := fun m j =>
   match m with
   | "sym.eval" => some do
@@ -189,6 +344,6 @@ def handle : Handler := fun m j =>
                   ("retok", Json.bool (tokenize (render ts) == some ts)),
                   ("reparsed", optJ exprToJson (parseTokens ts)),
                   ("norm", exprToJson (norm e))]
-  | _ => none
+  | _ => handleDim m j
 
 end IrVerif.Drive.SymExpr
